@@ -56,6 +56,18 @@ class C12(Prop):
                             c.tags.add("inmem" if inmem else "tempfile")
                             out.append(c)
                             k += 1
+        # large writes: staged data well beyond any internal buffer (temp-file copy in chunks), switch at every position
+        big = bytes((i * 131 + 7) % 251 for i in range(70000))
+        for nw in (1, 2, 3):
+            parts = [big[: 20000], big[20000: 20001], big[20001:]][:nw]
+            prod = ["W:" + p.hex() for p in parts] + ["D"]
+            for prog in (["S", "A"], ["X"], ["L"]):
+                for m in merges(prod, prog):
+                    for inmem in (0, 1):
+                        c = CaseT(f"tb{k}", "tempbuf", [], [f"OPT inmem={inmem} d0=aa55", "SCHED " + " ".join(m)])
+                        c.tags |= {"large_writes", "prog_" + "".join(prog), "inmem" if inmem else "tempfile", "consumer_before_drop"}
+                        out.append(c)
+                        k += 1
         return out
 
     def nontrivial(self, case, impl_lines):
